@@ -17,10 +17,22 @@ structure St where
   pre : Option CVol := none     -- model state right before the last commit (until the next mutation)
   alg : Nat := 2
 
-/-- age token ↔ absolute LastModified -/
-def lmConv (c : Content) : Content := if c.fl.hasLm then { c with lm := baseSec - c.lm } else c
+/-- age token → absolute LastModified.  The token is the age in seconds as a uint64: a modification
+    time AHEAD of the harness clock (client clock ahead of the server's) is a negative age, i.e. a
+    token ≥ 2^63 (two's complement). -/
+def absOfAge (a : Nat) : Nat := if a < 2 ^ 63 then baseSec - a else baseSec + (2 ^ 64 - a)
+/-- absolute LastModified → age token -/
+def ageOfAbs (l : Nat) : Nat := if l ≤ baseSec then baseSec - l else 2 ^ 64 - (l - baseSec)
 
+def lmConv (c : Content) : Content := if c.fl.hasLm then { c with lm := absOfAge c.lm } else c
+def lmConvBack (c : Content) : Content := if c.fl.hasLm then { c with lm := ageOfAbs c.lm } else c
+
+/-- model output (absolute) → trace tokens (age) -/
 def rConv : ROut → ROut
+  | .ok n ck sz c => .ok n ck sz (lmConvBack c)
+  | o => o
+/-- trace tokens (age) → absolute -/
+def rConvIn : ROut → ROut
   | .ok n ck sz c => .ok n ck sz (lmConv c)
   | o => o
 
@@ -31,7 +43,7 @@ def parseKeys (t : String) : List Nat :=
   if t == "-" then [] else (t.splitOn ",").map tokNat
 
 def viewOfOuts (o : List String) : Option Content :=
-  match rConv (rOfToks o) with
+  match rConvIn (rOfToks o) with
   | .ok _ _ _ c => some c
   | _ => none
 
@@ -48,7 +60,8 @@ def stepLine (st : St) (n : Nat) (ln : Line) : St × List String :=
     let c := lmConv (contentOfToks (a.drop 2))
     let (s', mo) := opStep s (nsOf n) (.write id ck c)
     let cov := (if s.snap.isSome then ["COV w.during-compaction"] else []) ++
-      (if c.data = "" then ["COV w.empty"] else []) ++ (if (inheritTtl s.v.volTtl c).fl.hasTtl then ["COV w.ttl"] else [])
+      (if c.data = "" then ["COV w.empty"] else []) ++ (if (inheritTtl s.v.volTtl c).fl.hasTtl then ["COV w.ttl"] else []) ++
+      (if (inheritTtl s.v.volTtl c).fl.hasTtl ∧ c.fl.hasLm ∧ baseSec < c.lm ∧ s.v.volTtl ≠ (0, 0) then ["COV w.ttl-lm-ahead-of-clock"] else [])
     ({ st with s := s', pre := none }, diff n ln (mToks mo) ++ cov)
   | "d" =>
     let id := tokNat (a.getD 0 "0"); let ck := tokNat (a.getD 1 "0")
@@ -62,7 +75,10 @@ def stepLine (st : St) (n : Nat) (ln : Line) : St × List String :=
       | none => []
       | some pre =>
         match classify pre s st.alg baseSec (nsOf n) id (viewOfOuts ln.outs) with
-        | none => ["COV r.after-commit-same"]
+        | none => ["COV r.after-commit-same"] ++
+            (match view pre (nsOf n) id with
+             | some (_, c) => if c.fl.hasTtl ∧ c.fl.hasLm ∧ baseSec < c.lm ∧ pre.v.volTtl ≠ (0, 0) then ["COV r.after-commit-ttl-lm-ahead-kept"] else []
+             | none => [])
         | some cls => [specfail n cls s!"r {id} alg={st.alg}"]
     let cov := match mo with
       | .ok cnt .. => if cnt = 0 then "COV r.empty" else "COV r.data"
